@@ -179,6 +179,12 @@ EVAL_RAISES = [
     'class MyErr(Exception):\n    pass\nraise MyErr("custom")', 'return {}["missing"]', 'return [][3]', 'return None.attr',
     'import nonexistent_module_c15', 'raise OSError(2, "No such file")', 'assert False, "assert msg"', 'raise StopIteration',
     'return int("x")', 'raise ValueError("")', 'raise ValueError("line1\\nline2")', 'return (1).real.nothing',
+    # chained exceptions: the reply carries the message of the exception that was RAISED, not of its cause or context
+    'try:\n    1/0\nexcept Exception as e:\n    raise ValueError("outer") from e',
+    'try:\n    {}["k"]\nexcept KeyError:\n    raise RuntimeError("while handling")',
+    'try:\n    int("x")\nexcept ValueError as e:\n    raise TypeError("outer2") from None',
+    'e1 = KeyError("root")\ne2 = ValueError("mid")\ne2.__cause__ = e1\ne3 = OSError("top")\ne3.__cause__ = e2\nraise e3',
+    'class Loud(Exception):\n    def __str__(self):\n        return "loud:" + repr(self.args)\nraise Loud(1, "two")',
 ]
 EVAL_UNSER = [
     'return object()', 'return {1, 2}', 'return lambda: 1', 'return [1, object()]', 'return {"a": {1}}', 'return (1, (2, {3}))',
